@@ -214,6 +214,11 @@ func c12Mutations(m e2eLayoutMsg, raw string, binary bool) []e2eMut {
 	}
 	addT("type=FAIL", "FAIL", encodeString("forged failure"))
 	addT("type=junk", "ZZZZ", raw)
+	// damage at the framing level: the head of the line itself is cut or missing
+	for _, rl := range [][2]string{{"raw=:tail", ":" + raw}, {"raw=colon", ":"}, {"raw=empty", ""}, {"raw=hash", "#"}, {"raw=hashcolon", "#:" + raw},
+		{"raw=nohash", m.Typ + ":" + raw}, {"raw=nocolon", "#" + m.Typ}, {"raw=typeonly", "#" + m.Typ + ":"}} {
+		addT(rl[0], "\x00RAW", rl[1])
+	}
 	return res
 }
 
